@@ -331,6 +331,102 @@ func init() {
 				run(callForm(g.Name, ia...), g.F(gargs), g.Name+" of "+rg.bm[in.b].Name, kindsOf(gargs), r)
 			},
 		}
+		// diamonds: two calls on one base value, both results and the base looked at afterwards.
+		// A pure function cannot let one call's result depend on another call having happened.
+		type dcall struct {
+			b    int
+			args []V // args[0] is the base
+			val  V
+		}
+		var dbases []V
+		for _, v := range alpha {
+			if v.K >= model.KList && v.K <= model.KSet {
+				dbases = append(dbases, v)
+			}
+		}
+		dsmall := append(append([]V{}, small...), model.List(model.Int(9)), model.Vec(model.Int(8), model.Int(9)))
+		var dcalls [][]dcall
+		var dcum []int64
+		dOf := func() ([][]dcall, []int64) {
+			if dcalls != nil {
+				return dcalls, dcum
+			}
+			var cum int64
+			for _, base := range dbases {
+				var cs []dcall
+				for bi, b := range rg.bm {
+					for _, ar := range b.Arities {
+						if ar == 0 || ar > 2 {
+							continue
+						}
+						n := pow(len(dsmall), ar-1)
+						for i := int64(0); i < n; i++ {
+							args := []V{base}
+							if ar == 2 {
+								args = append(args, dsmall[i])
+							}
+							if sp := b.F(args); sp.Kind == model.SVal {
+								cs = append(cs, dcall{bi, args, sp.Val})
+							}
+						}
+					}
+				}
+				dcalls = append(dcalls, cs)
+				cum += int64(len(cs)) * int64(len(cs))
+				dcum = append(dcum, cum)
+			}
+			return dcalls, dcum
+		}
+		dCase := func(i int64) (base V, f, g dcall) {
+			cs, cum := dOf()
+			for bi := range cs {
+				if i < cum[bi] {
+					if bi > 0 {
+						i -= cum[bi-1]
+					}
+					n := int64(len(cs[bi]))
+					return dbases[bi], cs[bi][i/n], cs[bi][i%n]
+				}
+			}
+			panic("c13 diamond index")
+		}
+		dForm := func(c dcall) types.MalType {
+			ia := []types.MalType{types.Symbol{Val: "base"}}
+			for _, a := range c.args[1:] {
+				ia = append(ia, rg.implArg(a))
+			}
+			return callForm(rg.bm[c.b].Name, ia...)
+		}
+		dText := func(c dcall) string {
+			parts := []string{rg.bm[c.b].Name, "base"}
+			for _, a := range c.args[1:] {
+				if a.K == model.KFn {
+					parts = append(parts, "fn")
+				} else {
+					parts = append(parts, "'"+a.Lisp())
+				}
+			}
+			return "(" + strings.Join(parts, " ") + ")"
+		}
+		diamonds := &vf.Family{
+			Name:   "diamonds",
+			Bounds: fmt.Sprintf("(let [base B x (f base e) y (g base e')] [x y base]) for every collection B of the alphabet (%d values, vector literals with spare capacity) and every ordered pair of calls f, g (builtin x arity 1-2, second argument over %d values) whose model result is a plain value: x, y and base must be what the model gives for each alone", len(dbases), len(dsmall)),
+			Setup:  setup,
+			N:      func(string) int64 { _, cum := dOf(); return cum[len(cum)-1] },
+			Describe: func(i int64) string {
+				base, f, g := dCase(i)
+				return fmt.Sprintf("(let [base '%s x %s y %s] [x y base])", base.Lisp(), dText(f), dText(g))
+			},
+			Run: func(i int64, r *vf.Rec) {
+				base, f, g := dCase(i)
+				sym := func(n string) types.MalType { return types.Symbol{Val: n} }
+				ast := types.List{Val: []types.MalType{sym("let"),
+					types.Vector{Val: []types.MalType{sym("base"), rg.implArg(base), sym("x"), dForm(f), sym("y"), dForm(g)}},
+					types.Vector{Val: []types.MalType{sym("x"), sym("y"), sym("base")}}}}
+				want := model.Spec{Kind: model.SVal, Val: model.Vec(f.val, g.val, base)}
+				run(ast, want, rg.bm[g.b].Name+" after "+rg.bm[f.b].Name+" on one base", kindsOf([]V{base}), r)
+			},
+		}
 		// rename-keys: every map over {:a :b :c} x every renaming of those keys (swaps, chains,
 		// rotations, collisions, non-key targets)
 		rkTargets := []V{{}, kw("a"), kw("b"), kw("c"), model.Str("x"), model.Int(1)}
@@ -360,7 +456,7 @@ func init() {
 			ID: "C13", Level: "model_checking",
 			Rule: "every (builtin, argument tuple) of the bounded space and every depth-2 composition is evaluated through the real EVAL and compared with a three-valued abstract model of sequences / string-keyed maps / string sets (exact value with kind, value in any order, must-error, error-or-nil, unspecified); non-trivial = the model specifies the outcome",
 			Assumptions: []string{"the model (harness/internal/model/coll.go) transcribes README + tests/step*.mal; everything they leave open is 'unspecified' and accepts any non-panicking outcome", "wrong argument counts are not generated"},
-			Families: []*vf.Family{direct, comp, rename},
+			Families: []*vf.Family{direct, comp, diamonds, rename},
 		}
 	})
 }
